@@ -69,6 +69,10 @@ func checkC09(c c09Case) (ci caseInfo, err error) {
 	ci.label("hits>=1:%v", hits >= 1)
 
 	tmpl := buildItem(c.Tree, c.Variant)
+	if c.Variant%3 == 0 {
+		touchItem(tmpl) // observers first: nothing they compute may influence later fills
+		ci.label("template-observed-before-fill")
+	}
 	fill := assignMap(c.Binds, c.Variant)
 	keysBefore := len(fill)
 
@@ -132,6 +136,9 @@ func checkC09(c c09Case) (ci caseInfo, err error) {
 				}
 			}
 			acc = append(acc, part...)
+			if c.Variant%3 == 0 {
+				touchItem(cur)
+			}
 			if p, msg := try(func() { cur = cur.FillVariables(assignMap(part, c.Variant)) }); p {
 				return ci, fmt.Errorf("partial fill %d/%d with %v refused (%s) although the one-shot fill succeeds", s+1, nsteps, bindNames(part), msg)
 			}
